@@ -42,8 +42,33 @@ def plain_twin_events(u, U, cases):
             results_thunks = [lambda: algebra.apply_op(op, sigs, fl), run_plain]
             e = law_event(u, 'plain/%s-%s-%d' % (op, '.'.join(map(str, idx)), t), 'C15_PlainInputsSameParams', results_thunks, cmp='ps',
                           case={'op': op, 'ins': [U[i] for i in idx], 'fl': fl})
-            e['side'] = bool(warned and warned[0])
+            # ... together with a DeprecationWarning, and the result is as well-formed as with upgraded inputs ('+depths' map)
+            e['side'] = bool(warned and warned[0]) and all(r.get('hasdepths', True) for r in e['results'] if r['tag'] == 'sig')
             yield e
+    return gen
+
+
+def unevaluable_events(U, n, seed):
+    """functions compiled with the future flag whose annotations raise AttributeError / TypeError / NameError when evaluated: the algebra
+    compares annotations, and still must answer with a signature or a ValueError"""
+    from sigtools import signatures
+
+    def gen(shard, nshards):
+        rnd = random.Random(seed)
+        cu = algebra.CaseUniverse()
+        for k in range(n):
+            pss = [[dict(p, an=(rnd.choice([91, 92, 93]) if p['k'] not in ('var', 'vkw') else 0)) for p in U[rnd.randrange(len(U))]] for _ in range(rnd.choice([2, 2, 3]))]
+            op = rnd.choice(['merge', 'embed', 'forwards'])
+            if op == 'forwards':
+                pss = pss[:2]
+            if k % nshards != shard:
+                continue
+            fs = [absig.make_func(ps, name='f%d' % (j + 1), future=True) for j, ps in enumerate(pss)]
+            sigs = [signatures.signature(f) for f in fs]
+            fl = flags()
+            thunk = (lambda: signatures.merge(*sigs)) if op == 'merge' else (lambda: signatures.embed(*sigs)) if op == 'embed' else (lambda: signatures.forwards(sigs[0], sigs[1]))
+            # (the projection reads the raw annotation text only; evaluation happens inside the operation, if at all)
+            yield event(cu, 'uneval/%d' % k, op, sigs, thunk, fl=fl, plain=False, case={'op': op, 'ins': pss, 'fl': fl, 'future': True})
     return gen
 
 
@@ -103,7 +128,7 @@ def run(check, tier, seed, scratch):
             alggen.mask_events(u2, U2, hide='all', sample_hide=0.1 if quick else 1.0, seed=seed),
             dup_name_masks(u2, U2),
             alggen.forwards_events(uo, UO, u2, U2, sample=0.008 if quick else 0.3, seed=seed, hide=True),
-            plain_twin_events(u2, U2, twin)]
+            plain_twin_events(u2, U2, twin), unevaluable_events(U2, 3000 if quick else 80000, seed + 17)]
     for op in ('merge', 'embed', 'mask', 'forwards'):
         gens.append(alggen.cex_events(cu, op, [c for o, c in cex if o == op], tag='modelcex-' + op))
     run_trace_leg(check, scratch, 'robustness', alggen.chain(*gens), WANT)
